@@ -114,7 +114,7 @@ def untag(x, ts=64):
     return x // ts, (x % ts) // 8, x % 8
 
 
-INT_TYPES = ("int", "i64", "i32", "arr0d_i", "bool")
+INT_TYPES = ("int", "i64", "i32", "i8", "u8", "arr0d_i", "bool")
 FLOAT_TYPES = ("pyfloat", "f32", "f64", "arr0d_f")
 
 
@@ -123,16 +123,34 @@ def cast_step(x, ty, vec):
     is used only if it holds the value exactly (the harness must not truncate anything itself)."""
     arr = np.asarray(x, dtype=np.float64)
     integral = bool(np.all(arr == np.round(arr)))
-    if ty in INT_TYPES and (not integral or (ty == "bool" and not np.all((arr == 0) | (arr == 1)))):
+    if ty in INT_TYPES and (not integral or (ty == "bool" and not np.all((arr == 0) | (arr == 1)))
+                            or (ty == "u8" and np.any(arr < 0))):
         ty = "f32"
     if vec:
-        dt = {"int": np.int64, "i64": np.int64, "i32": np.int32, "arr0d_i": np.int64, "bool": np.bool_,
+        dt = {"int": np.int64, "i64": np.int64, "i32": np.int32, "i8": np.int8, "u8": np.uint8, "arr0d_i": np.int64, "bool": np.bool_,
               "pyfloat": np.float64, "f64": np.float64, "f32": np.float32, "arr0d_f": np.float32}[ty]
         return arr.astype(dt)
     v = float(arr.reshape(-1)[0])
-    return {"int": lambda: int(v), "i64": lambda: np.int64(v), "i32": lambda: np.int32(v), "arr0d_i": lambda: np.array(int(v)),
+    return {"int": lambda: int(v), "i64": lambda: np.int64(v), "i32": lambda: np.int32(v), "i8": lambda: np.int8(v),
+            "u8": lambda: np.uint8(v), "arr0d_i": lambda: np.array(int(v)),
             "bool": lambda: bool(v), "pyfloat": lambda: v, "f64": lambda: np.float64(v), "f32": lambda: np.float32(v),
             "arr0d_f": lambda: np.array(v, dtype=np.float32)}[ty]()
+
+
+def snap(x):
+    """value snapshot of an argument handed to learn() (lists, dicts, tuples, arrays, tensors, numbers)"""
+    if isinstance(x, dict):
+        return ("dict", [(k, snap(v)) for k, v in x.items()])
+    if isinstance(x, (list, tuple)):
+        return (type(x).__name__, [snap(v) for v in x])
+    if isinstance(x, torch.Tensor):
+        return ("tensor", str(x.dtype), tuple(x.shape), x.detach().cpu().numpy().tobytes())
+    if isinstance(x, np.ndarray):
+        return ("ndarray", str(x.dtype), tuple(x.shape), x.tobytes())
+    return (type(x).__name__, repr(x))
+
+
+ARG_NAMES = ["states", "actions", "log_probs", "rewards", "dones", "values", "next_state", "next_done"]
 
 
 def id_groups(ids):
@@ -343,6 +361,10 @@ class C17(vlib.Driver):
             c["ts"] = 128 if max(nA) > 8 else 64
             if INDEPENDENT_DICT_ORDERS and rng.random() < 0.3:
                 c["dict_orders"] = [rng.sample(c["ids"], len(c["ids"])) for _ in range(8)]
+        if rng.random() < 0.12:
+            c["twice"] = True
+        if rng.random() < 0.1:
+            c["after_raise"] = True
         if not vec and rng.random() < 0.5:
             c["variant"] = "pyfloat"
         elif vec and algo == "ppo" and rng.random() < 0.2:
@@ -368,11 +390,20 @@ class C17(vlib.Driver):
                         g["V"][a][0][e] = float(rng.randint(-3, 3))
                         g["V"][a][T - 1][e] = rng.randint(-15, 15) / 4.0 + 0.5
         fl = lambda: rng.choice(["pyfloat", "f32", "f64", "arr0d_f"])
-        c["types"] = {"R": [rng.choice(["int", "i64", "i32", "arr0d_i"])] + [rng.choice([fl(), fl(), "int"]) for _ in range(T - 1)],
-                      "D": [rng.choice(["bool", "int", "i64", "f32"])] + [rng.choice([fl(), "bool", "int"]) for _ in range(T - 1)],
+        c["types"] = {"R": [rng.choice(["int", "i64", "i32", "i8", "arr0d_i"])] + [rng.choice([fl(), fl(), "int"]) for _ in range(T - 1)],
+                      "D": [rng.choice(["bool", "int", "i64", "u8", "f32"])] + [rng.choice([fl(), "bool", "int"]) for _ in range(T - 1)],
                       "V": [rng.choice(["int", "i64"]) if narrow_v else rng.choice(["f32", "f64"])] + [fl() for _ in range(T - 1)]}
         c["types"]["R"][1] = fl()
         c.pop("variant", None)
+        return c
+
+    def with_magnitude(self, rng, c):
+        """extreme but legal magnitudes: rewards and values scaled by 2^k (nothing in the estimate may clip or normalise)"""
+        k = rng.choice([12, 20, -12])
+        for g in c["groups"]:
+            for f in ("R", "V"):
+                g[f] = [[[x * 2.0 ** k for x in row] for row in m] for m in g[f]]
+        c["exact"], c["bias"], c["magnitude"] = False, 0.0, k
         return c
 
     def with_epochs(self, rng, c):
@@ -436,6 +467,8 @@ class C17(vlib.Driver):
                 self.with_epochs(rng, cases[-1])
             if rng.random() < 0.25:
                 self.with_mixed_types(rng, cases[-1])
+            elif rng.random() < 0.12:
+                self.with_magnitude(rng, cases[-1])
         for _ in range(n_ippo):
             T = rng.choice([1, 2, 2, 3, 3, 4, 5, 6]); exact = rng.random() < 0.6
             if not exact:
@@ -452,6 +485,8 @@ class C17(vlib.Driver):
                 self.with_epochs(rng, cases[-1])
             if rng.random() < 0.25:
                 self.with_mixed_types(rng, cases[-1])
+            elif rng.random() < 0.12:
+                self.with_magnitude(rng, cases[-1])
         # (d) the training loops with scripted episode ends: which flags reach learn()
         for _ in range(24 if quick else 200):
             ma = rng.random() < 0.5
@@ -636,11 +671,27 @@ class C17(vlib.Driver):
                     return orig_pre(*a, **k)
                 mod.preprocess_observation = pre_wrapper
         err = None
+        exps_in = self.experiences(case, ids, data)
+        if case.get("after_raise") and case["T"] >= 2:
+            # a malformed rollout first (rewards one step short): whatever learn() does with it, the same agent must
+            # then treat the well-formed rollout like any other
+            bad = list(self.experiences(case, ids, data))
+            bad[3] = ({k: v[:-1] for k, v in bad[3].items()} if isinstance(bad[3], dict) else bad[3][:-1])
+            try:
+                ag.learn(tuple(bad))
+            except Exception:
+                pass
+            for gi in range(len(data)):
+                pin_critic(self.critic_of(ag, case, gi), case["bias"])
+            caps.clear()
+            shuffles["n"] = 0; shuffles["bad"] = 0
+        before = [snap(x) for x in exps_in]
         try:
-            ag.learn(self.experiences(case, ids, data))
+            ag.learn(exps_in)
         except Exception as e:      # the learner raised on this rollout: part of the observation
             err = f"{type(e).__name__}: {str(e)[:300]}"
         finally:
+            args_modified = [n_ for n_, b, x in zip(ARG_NAMES, before, exps_in) if snap(x) != b]
             mod.get_experiences_samples = orig
             np.random.shuffle = orig_shuffle
             if ep:
@@ -679,7 +730,7 @@ class C17(vlib.Driver):
         # the float32 arithmetic of learn() is exact only if the critic could be pinned to small dyadic values
         dyadic = all(float(v * 8).is_integer() and abs(v) <= 64 for g in nvs for row in g for v in row)
         return {"error": err, "groups": groups, "nv": nvs, "exact": bool(case["exact"] and dyadic),
-                "shuffle_calls": shuffles["n"], "shuffle_bad": shuffles["bad"]}
+                "shuffle_calls": shuffles["n"], "shuffle_bad": shuffles["bad"], "args_modified": args_modified}
 
     def run_loop(self, case):
         """one generation of the real training loop on a scripted env; learn() is wrapped to record what it is handed"""
@@ -728,6 +779,10 @@ class C17(vlib.Driver):
         if not hasattr(ppo_mod, "get_experiences_samples") or not hasattr(ippo_mod, "get_experiences_samples"):
             raise RuntimeError("entry point get_experiences_samples not found in agilerl.algorithms.ppo / ippo")
         obs = self.learn_capture(case, case["groups"])
+        if case.get("twice") and obs["error"] is None:      # the same rollout again on the same agent: same rows
+            again = self.learn_capture(case, case["groups"])
+            obs["second_call_same"] = bool(again["error"] is None and
+                                           [g["rows"] for g in again["groups"]] == [g["rows"] for g in obs["groups"]])
         # no-leak, stated on the implementation: change everything after an episode end (and every other
         # column) and look at the estimates before it
         obs["leak"] = None
@@ -867,8 +922,15 @@ class C17(vlib.Driver):
             nmin = min(T * g["A"] * E for g in case["groups"])
             sig = f"{algo}:learn-raises:single-sample" if nmin == 1 else (f"{algo}:learn-raises:T=1" if T == 1 else f"{algo}:learn-raises")
             return [Violation("learn-completes", sig, f"{algo}.learn raised on a rollout with {shape}, vec={case['vec']}: {obs['error']}")]
+        if obs.get("args_modified"):
+            out.append(Violation("arguments-unmodified", f"{algo}:arguments-modified:{obs['args_modified'][0]}",
+                                 f"{algo}.learn {shape}: the caller's {obs['args_modified']} (lists / dicts / arrays handed to learn) were "
+                                 f"changed by the call"))
+        if obs.get("second_call_same") is False:
+            out.append(Violation("repeatable", f"{algo}:second-call-differs",
+                                 f"{algo}.learn {shape}: the same rollout handed to the same agent a second time gave other rows"))
         if len(obs["groups"]) != len(case["groups"]):
-            return [Violation("rows-captured", f"{algo}:rows-not-captured",
+            return out + [Violation("rows-captured", f"{algo}:rows-not-captured",
                               f"expected {len(case['groups'])} calls series of get_experiences_samples, saw {len(obs['groups'])}")]
         for gi, (gr, ob) in enumerate(zip(case["groups"], obs["groups"])):
             A = gr["A"]
@@ -1040,6 +1102,11 @@ class C17(vlib.Driver):
                 labs.append("minibatch-body-observed")
         if case.get("variant"):
             labs.append(f"variant={case['variant']}")
+        for flag in ("twice", "after_raise"):
+            if case.get(flag):
+                labs.append(flag)
+        if case.get("magnitude") is not None:
+            labs.append(f"magnitude=2^{case['magnitude']}")
         if case.get("types"):
             ty = case["types"]
             labs += ["mixed-step-types", f"first-reward-type={ty['R'][0]}", f"first-done-type={ty['D'][0]}", f"first-value-type={ty['V'][0]}"]
